@@ -190,6 +190,44 @@ fn c06_q_xls_defined_name_err3d() {
     defined_name_case(0x3c)
 }
 
+/// Cell formulas (rgce with its 2-byte length prefix) whose first token PTG (concrete, shape) is followed by fewer bytes
+/// than it needs, or whose declared cce exceeds the data: Ok or Err, no panic. Lettering / number formatting stubbed.
+fn formula_token_case(ptg: u8) {
+    let mut b: [u8; 10] = kani::any();
+    b[2] = ptg;
+    b[1] = 0;
+    kani::assume(b[0] <= 8);
+    let s = any_slice(&b);
+    kani::assume(s.len() >= 2);
+    let sheets: [String; 0] = [];
+    let names: [(String, String); 0] = [];
+    let xtis: [Xti; 0] = [];
+    let enc = crate::cfb::k_kcfb::utf16_enc();
+    let a = parse_formula(s, &sheets, &names, &xtis, &enc);
+    kani::cover!(s.len() == 10, "end");
+    std::mem::forget((a, enc));
+}
+
+macro_rules! ftok {
+    ($name:ident, $ptg:expr) => {
+        #[kani::proof]
+        #[kani::unwind(6)]
+        #[kani::stub(crate::utils::push_column, noop_push_column)]
+        #[kani::stub(alloc::fmt::format, empty_format)]
+        #[kani::stub(encoding_rs::Encoding::decode, crate::k_kcommon::model_utf16_decode)]
+        fn $name() {
+            formula_token_case($ptg)
+        }
+    };
+}
+ftok!(c06_x_xls_formula_tok_ref, 0x24);
+ftok!(c06_x_xls_formula_tok_name, 0x23);
+ftok!(c06_x_xls_formula_tok_func, 0x21);
+ftok!(c06_x_xls_formula_tok_funcvar, 0x22);
+ftok!(c06_x_xls_formula_tok_str, 0x17);
+ftok!(c06_x_xls_formula_tok_attr, 0x19);
+ftok!(c06_x_xls_formula_tok_bool, 0x1D);
+
 #[kani::proof]
 #[kani::unwind(4)]
 fn c06_q_twin_xls() {
